@@ -98,9 +98,11 @@ func run(prop, tier, repo, verifd string, f propFn) (code int) {
 	if tier == "thorough" && os.Getenv("YV_SELFTEST") == "" {
 		vs := runSelfTest(prop, repo, verifd)
 		r.Extra["sensitivity_selftest"] = vs
-		fired, missed, skipped := 0, 0, 0
+		fired, missed, skipped, silent := 0, 0, 0, 0
 		for _, v := range vs {
 			switch v.Status {
+			case "neutralised":
+				silent++
 			case "fired":
 				fired++
 			case "missed", "false-alarm":
@@ -113,7 +115,8 @@ func run(prop, tier, repo, verifd string, f propFn) (code int) {
 		r.Analysed["selftest: seeded changes fired"] = fired
 		r.Analysed["selftest: seeded changes missed"] = missed
 		r.Analysed["selftest: seeded changes skipped (patch no longer applies)"] = skipped
-		fmt.Printf("%s selftest: %d stored seeded changes re-applied as overlays: %d fired, %d missed, %d skipped\n", prop, len(vs), fired, missed, skipped)
+		r.Analysed["selftest: behaviour-preserving refactorings (and neutralised changes) that stayed silent"] = silent
+		fmt.Printf("%s selftest: %d stored changes re-applied as overlays: %d seeded fired, %d missed or false alarm, %d skipped, %d refactorings silent\n", prop, len(vs), fired, missed, skipped, silent)
 	}
 	return r.Finish(verifd)
 }
